@@ -269,6 +269,11 @@ fn run_c06(t: &mut Tape, _tier: Tier) -> RunOut {
             s = b.into_iter().collect();
             out.probe("secret_with_nul_or_whitespace");
         }
+        if len >= 4 && t.chance(10) {
+            // a secret may itself begin with the derivation prefix (it is prefixed once more)
+            s.replace_range(0..4, ["AWS4", "aws4", "AWS4"][t.below(3)]);
+            out.probe("secret_begins_with_prefix");
+        }
         s
     };
     out.probe(&format!("secret_len[{}]", secret.len().min(48)));
